@@ -36,7 +36,7 @@ def findings(ck, pid, mod, secs=120, keep=False):
     for c in cs:
         open(os.path.join(work, "corpus", hashlib.sha1(c.encode()).hexdigest()[:16]), "w").write(c)
     out_file = os.path.join(work, "findings.txt")
-    cmd = ["cargo", "+nightly", "fuzz", "run", "diff", work + "/corpus", "--", "-max_total_time=%d" % secs, "-seed=%d" % (7 + int(pid[1:])),
+    cmd = ["cargo", "+nightly", "fuzz", "run", "diff", work + "/corpus", "--", "-max_total_time=%d" % secs, "-seed=%d" % (7 + int(pid[1:]) + 1000 * int(os.environ.get("H264V_FUZZ_SEED", "0"))),
            "-max_len=4000", "-len_control=0", "-rss_limit_mb=4000", "-timeout=20", "-print_final_stats=1"]
     try:
         p = subprocess.run(cmd, cwd=ck.HARNESS, env=dict(env, H264V_FUZZ_OUT=out_file), stdout=subprocess.PIPE, stderr=subprocess.STDOUT,
